@@ -1193,4 +1193,327 @@ theorem inv_receive_commit_half {W : World} {ver : Nat} {s : State} {seen : List
     · subst e; exact hb
     · exact h.seenSrc x (mem_cons_ne hx e)
 
+/-! ### the corpus and deletes mirrors (C06), as far as `ReceiveBlob` reads them -/
+
+def CorpusOk (s : State) : Prop :=
+  ∀ c, s.corpus = some c → c.bad = false ∧ KAsc c.m ∧
+    (∀ k, SMap.get c.m k = if slurped k then SMap.get s.rows k else none) ∧
+    (∀ d, d ∈ c.deletes ↔ d ∈ delsOfRows s.rows)
+
+def DelOk (s : State) : Prop := ∀ d, d ∈ s.deletes ↔ d ∈ delsOfRows s.rows
+
+theorem metaType_eq (W : World) (s : State) (hr : R2 W s.rows) (hc : CorpusOk s) (t : Ref) :
+    s.metaType t = if stOf W s.rows t = .absent then none else some (tcode W t) := by
+  have hrow : s.metaRow t = SMap.get s.rows (kMeta t) := by
+    unfold State.metaRow
+    cases hcs : s.corpus with
+    | none => rfl
+    | some c =>
+      have := (hc c hcs).2.2.1 (kMeta t)
+      simpa [slurped, kMeta] using this
+  unfold State.metaType
+  rw [hrow, meta_of_R2 W s.rows hr t]
+  by_cases e : stOf W s.rows t = .absent
+  · simp [e]
+  · simp [e, metaVal]
+
+theorem fullRowsAt_eq (W : World) (b t : Ref) (h : idep W b = some t) : fullRowsAt W b (tcode W t) = fullRows W b := by
+  unfold fullRows targetType; rw [h]
+
+/-- ReceiveBlob keeps the invariant (any of its four outcomes) -/
+theorem inv_receive {W : World} {ver : Nat} {s : State} {seen : List Ref} {b : Ref} (hW : WF W)
+    (h : Inv W ver s seen (some b)) (hc : CorpusOk s) (hb : b ∈ s.src) :
+    Inv W ver (s.receive W b) (b :: seen) none := by
+  unfold State.receive
+  by_cases hfull : stOf W s.rows b = .full
+  · rw [if_pos ((indexedVal_iff W s.rows h.r2 b).mpr hfull)]
+    exact inv_receive_full h hb hfull
+  · rw [if_neg (fun hh => hfull ((indexedVal_iff W s.rows h.r2 b).mp hh))]
+    cases hfm : firstMissing W s.src b with
+    | some m => exact inv_receive_fetchmiss h hb hfull hfm
+    | none =>
+      simp only
+      cases hdep : idep W b with
+      | none =>
+        simp only
+        exact inv_receive_commit_full h hb hfull hfm (fun t ht => by rw [hdep] at ht; cases ht) _
+      | some t =>
+        simp only
+        rw [metaType_eq W s h.r2 hc t]
+        by_cases hta : stOf W s.rows t = .absent
+        · rw [if_pos hta]
+          simp only
+          exact inv_receive_commit_half h hb hfull hfm hdep hta (fun e => hW.2 b (by rw [hdep, e])) _
+        · rw [if_neg hta]
+          simp only
+          rw [fullRowsAt_eq W b t hdep]
+          exact inv_receive_commit_full h hb hfull hfm
+            (fun t' ht' => by rw [hdep] at ht'; cases ht'; exact hta) _
+
+/-! ### deletions recorded by rows; corpus.addBlob -/
+
+theorem delOfRow_some (r : Row) (t d date : Nat) :
+    delOfRow r = some ⟨t, d, date⟩ ↔ r.1 = kDeleted t date d := by
+  obtain ⟨k, v⟩ := r
+  unfold delOfRow
+  split
+  · rename_i t' date' d' v' heq
+    obtain ⟨rfl, rfl⟩ := Prod.mk.inj heq
+    simp [kDeleted]
+    intro _
+    exact ⟨fun h => ⟨h.2, h.1⟩, fun h => ⟨h.2, h.1⟩⟩
+  · rename_i hne
+    constructor
+    · intro h; cases h
+    · intro h
+      simp only at h
+      exact (hne t date d v (by rw [h]; rfl)).elim
+
+theorem mem_delsOfRows (l : List Row) (t d date : Nat) :
+    (⟨t, d, date⟩ : Del) ∈ delsOfRows l ↔ (SMap.get l (kDeleted t date d)).isSome = true := by
+  unfold delsOfRows
+  rw [List.mem_filterMap]
+  constructor
+  · rintro ⟨⟨k, v⟩, hr, hd⟩
+    have := (delOfRow_some (k, v) t d date).mp hd
+    simp only at this; subst this
+    exact get_isSome_of_mem hr
+  · intro h
+    cases hg : SMap.get l (kDeleted t date d) with
+    | none => rw [hg] at h; cases h
+    | some v => exact ⟨(kDeleted t date d, v), get_some_mem hg, (delOfRow_some _ t d date).mpr rfl⟩
+
+/-- what `CorpusOk` says about one corpus and one row set -/
+def COk (rows : SMap Bytes) (c : Corpus) : Prop :=
+  c.bad = false ∧ KAsc c.m ∧ (∀ k, SMap.get c.m k = if slurped k then SMap.get rows k else none) ∧
+  (∀ d, d ∈ c.deletes ↔ d ∈ delsOfRows rows)
+
+def mergeStep (dup : Bool) (b : Ref) (c : Corpus) (r : Row) : Corpus :=
+  if !slurped r.1 then c else if dup && r.1 = kMeta b then c else c.merge r.1 r.2
+
+def skipKey (dup : Bool) (b : Ref) (k : Bytes) : Bool := !slurped k || (dup && decide (k = kMeta b))
+
+theorem mergeStep_skip (dup : Bool) (b : Ref) (c : Corpus) (r : Row) (h : skipKey dup b r.1 = true) :
+    mergeStep dup b c r = c := by
+  unfold mergeStep
+  unfold skipKey at h
+  by_cases h1 : slurped r.1 = true
+  · simp only [h1, Bool.not_true, Bool.false_or, Bool.and_eq_true, decide_eq_true_eq] at h
+    simp [h1, h.1, h.2]
+  · simp [h1]
+
+theorem mergeStep_merge (dup : Bool) (b : Ref) (c : Corpus) (r : Row) (h : skipKey dup b r.1 = false) :
+    mergeStep dup b c r = c.merge r.1 r.2 := by
+  unfold mergeStep
+  unfold skipKey at h
+  simp only [Bool.or_eq_false_iff, Bool.not_eq_false', Bool.and_eq_false_iff, decide_eq_false_iff_not] at h
+  obtain ⟨h1, h2⟩ := h
+  rw [h1]
+  simp only [Bool.not_true, Bool.false_eq_true, if_false]
+  rcases h2 with h2 | h2
+  · simp [h2]
+  · simp [h2]
+
+theorem fold_mergeStep (dup : Bool) (b : Ref) (L : SMap Bytes) (hL : KAsc L) (c : Corpus) (hc : KAsc c.m)
+    (hfree : ∀ k v, SMap.get L k = some v → skipKey dup b k = false → SMap.get c.m k = none) :
+    (L.foldl (mergeStep dup b) c).bad = c.bad ∧ KAsc (L.foldl (mergeStep dup b) c).m ∧
+    (L.foldl (mergeStep dup b) c).deletes = c.deletes ∧
+    (∀ k, SMap.get (L.foldl (mergeStep dup b) c).m k =
+      if (SMap.get L k).isSome = true ∧ skipKey dup b k = false then SMap.get L k else SMap.get c.m k) := by
+  induction L generalizing c with
+  | nil => exact ⟨rfl, hc, rfl, fun k => by simp [SMap.get]⟩
+  | cons p rest ih =>
+    obtain ⟨k0, v0⟩ := p
+    have hrest : ∀ k, k ≠ k0 → SMap.get ((k0, v0) :: rest) k = SMap.get rest k := by
+      intro k hk; simp [SMap.get, hk]
+    have hk0rest : SMap.get rest k0 = none := get_eq_none_of_all_gt k0 (kasc_head_lt hL)
+    rw [List.foldl_cons]
+    by_cases hs : skipKey dup b k0 = true
+    · rw [mergeStep_skip dup b c (k0, v0) hs]
+      have hfree' : ∀ k v, SMap.get rest k = some v → skipKey dup b k = false → SMap.get c.m k = none := by
+        intro k v hg hsk
+        have hne : k ≠ k0 := fun e => by rw [e, hk0rest] at hg; cases hg
+        exact hfree k v (by rw [hrest k hne]; exact hg) hsk
+      obtain ⟨i1, i2, i3, i4⟩ := ih (kasc_tail hL) c hc hfree'
+      refine ⟨i1, i2, i3, ?_⟩
+      intro k
+      rw [i4 k]
+      by_cases e : k = k0
+      · subst e
+        rw [hk0rest]
+        simp [hs]
+      · rw [hrest k e]
+    · have hs' : skipKey dup b k0 = false := by cases h : skipKey dup b k0 <;> simp_all
+      rw [mergeStep_merge dup b c (k0, v0) hs']
+      have hnone : SMap.get c.m k0 = none := hfree k0 v0 (by simp [SMap.get]) hs'
+      have hmerge : c.merge k0 v0 = { c with m := SMap.ins k0 v0 c.m } := by
+        unfold Corpus.merge; rw [has_eq, hnone]; rfl
+      rw [hmerge]
+      have hfree' : ∀ k v, SMap.get rest k = some v → skipKey dup b k = false →
+          SMap.get (SMap.ins k0 v0 c.m) k = none := by
+        intro k v hg hsk
+        have hne : k ≠ k0 := fun e => by rw [e, hk0rest] at hg; cases hg
+        rw [get_ins, if_neg hne]
+        exact hfree k v (by rw [hrest k hne]; exact hg) hsk
+      obtain ⟨i1, i2, i3, i4⟩ := ih (kasc_tail hL) { c with m := SMap.ins k0 v0 c.m } (kasc_ins _ _ hc) hfree'
+      refine ⟨i1, i2, i3, ?_⟩
+      intro k
+      rw [i4 k]
+      show (if _ then _ else SMap.get (SMap.ins k0 v0 c.m) k) = _
+      by_cases e : k = k0
+      · subst e
+        rw [hk0rest, get_ins]
+        simp [SMap.get, hs']
+      · rw [hrest k e, get_ins, if_neg e]
+
+theorem fold_updateDeletes (ds : List Del) (c : Corpus) :
+    (ds.foldl Corpus.updateDeletes c).m = c.m ∧ (ds.foldl Corpus.updateDeletes c).bad = c.bad ∧
+    (∀ d, d ∈ (ds.foldl Corpus.updateDeletes c).deletes ↔ d ∈ c.deletes ∨ d ∈ ds) := by
+  induction ds generalizing c with
+  | nil => exact ⟨rfl, rfl, fun d => by simp⟩
+  | cons a rest ih =>
+    rw [List.foldl_cons]
+    obtain ⟨i1, i2, i3⟩ := ih (c.updateDeletes a)
+    have hu : (c.updateDeletes a).m = c.m ∧ (c.updateDeletes a).bad = c.bad ∧
+        (∀ d, d ∈ (c.updateDeletes a).deletes ↔ d ∈ c.deletes ∨ d = a) := by
+      unfold Corpus.updateDeletes
+      by_cases hcon : c.deletes.contains a = true
+      · rw [if_pos hcon]
+        refine ⟨rfl, rfl, fun d => ⟨Or.inl, ?_⟩⟩
+        rintro (h | rfl)
+        · exact h
+        · simpa using hcon
+      · rw [if_neg hcon]
+        exact ⟨rfl, rfl, fun d => by simp⟩
+    refine ⟨i1.trans hu.1, i2.trans hu.2.1, ?_⟩
+    intro d
+    rw [i3 d, hu.2.2 d]
+    simp only [List.mem_cons]
+    constructor
+    · rintro ((h | h) | h)
+      · exact Or.inl h
+      · exact Or.inr (Or.inl h)
+      · exact Or.inr (Or.inr h)
+    · rintro (h | h | h)
+      · exact Or.inl (Or.inl h)
+      · exact Or.inl (Or.inr h)
+      · exact Or.inr h
+
+theorem addBlob_eq (c : Corpus) (b : Ref) (mm : List Row) (resumed : Bool)
+    (h : (SMap.has c.m (kMeta b) && !resumed) = false) :
+    c.addBlob b mm resumed =
+      (delsOfMM mm).foldl Corpus.updateDeletes ((SMap.union mm []).foldl (mergeStep (SMap.has c.m (kMeta b)) b) c) := by
+  unfold Corpus.addBlob
+  simp only [h, Bool.false_eq_true, if_false]
+  rfl
+
+theorem slurped_not_missing (k : Bytes) (h : slurped k = true) : isMissingKey k = false := by
+  unfold isMissingKey
+  split
+  · simp [slurped] at h
+  · rfl
+
+theorem slurped_keys_of_partial (W : World) (b : Ref) (k : Bytes) (v : Bytes)
+    (h : SMap.get (partialRows W b) k = some v) (hs : slurped k = true) : k = kMeta b := by
+  unfold partialRows at h
+  by_cases h1 : k = kMeta b
+  · exact h1
+  · by_cases h2 : k = kHave b
+    · subst h2; simp [slurped, kHave] at hs
+    · simp only [SMap.get, h1, h2, if_false] at h
+      split at h
+      · rename_i s _ _ _
+        by_cases h3 : k = kSignerKeyId s
+        · subst h3; simp [slurped, kSignerKeyId] at hs
+        · simp [SMap.get, h3] at h
+      · simp [SMap.get] at h
+
+/-- corpus.addBlob of the rows just committed keeps the corpus equal to what a load of the rows gives -/
+theorem addBlob_ok (W : World) (rows : SMap Bytes) (c : Corpus) (hr : R2 W rows) (hc : COk rows c) (b : Ref)
+    (hst : stOf W rows b ≠ .full) (st' : Status) (hst' : st' ≠ .absent) (rows1 : SMap Bytes)
+    (h1 : ∀ k, isMissingKey k = false → SMap.get rows1 k = SMap.get (SMap.union (rowsFor W st' b) rows) k) :
+    COk rows1 (c.addBlob b (rowsFor W st' b) (SMap.get rows (kHave b)).isSome) := by
+  obtain ⟨cb, ck, cm, cd⟩ := hc
+  have hdup : SMap.has c.m (kMeta b) = (SMap.get rows (kHave b)).isSome := by
+    rw [has_eq, cm (kMeta b)]
+    have : slurped (kMeta b) = true := rfl
+    rw [if_pos this, meta_of_R2 W rows hr b, have_of_R2 W rows hr b]
+    cases stOf W rows b <;> simp
+  have hdupst : SMap.has c.m (kMeta b) = true ↔ stOf W rows b ≠ .absent := by
+    rw [hdup]; exact resumed_iff W rows hr b
+  rw [addBlob_eq c b _ _ (by rw [hdup]; cases (SMap.get rows (kHave b)).isSome <;> rfl)]
+  have hL : KAsc (SMap.union (rowsFor W st' b) []) := kasc_union _ kasc_nil
+  have hLget : ∀ k, SMap.get (SMap.union (rowsFor W st' b) []) k = SMap.get (rowsFor W st' b) k := get_union_nil _
+  have hfree : ∀ k v, SMap.get (SMap.union (rowsFor W st' b) []) k = some v →
+      skipKey (SMap.has c.m (kMeta b)) b k = false → SMap.get c.m k = none := by
+    intro k v hg hsk
+    rw [hLget] at hg
+    unfold skipKey at hsk
+    simp only [Bool.or_eq_false_iff, Bool.not_eq_false', Bool.and_eq_false_iff, decide_eq_false_iff_not] at hsk
+    obtain ⟨hsl, hmeta⟩ := hsk
+    rw [cm k, if_pos hsl]
+    cases hrow : SMap.get rows k with
+    | none => rfl
+    | some v' =>
+      exfalso
+      have g := get_good (good_rowsFor W st' b) hg
+      obtain ⟨b0, hb0⟩ := (hr k v' g.2.1 g.2.2).mp hrow
+      have g0 := get_good (good_rowsFor W _ b0) hb0
+      have hown : owner k = some b := by
+        rcases g.1 with h | ⟨s, h⟩
+        · exact h
+        · have : k = kSignerKeyId s := (Prod.mk.inj h).1
+          rw [this] at hsl; simp [slurped, kSignerKeyId] at hsl
+      have hown0 : owner k = some b0 := by
+        rcases g0.1 with h | ⟨s, h⟩
+        · exact h
+        · have : k = kSignerKeyId s := (Prod.mk.inj h).1
+          rw [this] at hsl; simp [slurped, kSignerKeyId] at hsl
+      have e : b0 = b := by rw [hown] at hown0; exact (Option.some.inj hown0).symm
+      subst e
+      cases hs0 : stOf W rows b0 with
+      | absent => rw [hs0] at hb0; simp [rowsFor, SMap.get] at hb0
+      | full => exact hst hs0
+      | half =>
+        rw [hs0] at hb0
+        have hk := slurped_keys_of_partial W b0 k v' hb0 hsl
+        rcases hmeta with hm | hm
+        · have : SMap.has c.m (kMeta b0) = true := hdupst.mpr (by rw [hs0]; simp)
+          rw [this] at hm; cases hm
+        · exact hm hk
+  obtain ⟨f1, f2, f3, f4⟩ := fold_mergeStep (SMap.has c.m (kMeta b)) b _ hL c ck hfree
+  obtain ⟨u1, u2, u3⟩ := fold_updateDeletes (delsOfMM (rowsFor W st' b))
+    ((SMap.union (rowsFor W st' b) []).foldl (mergeStep (SMap.has c.m (kMeta b)) b) c)
+  refine ⟨by rw [u2, f1]; exact cb, by rw [u1]; exact f2, ?_, ?_⟩
+  · intro k
+    rw [u1, f4 k, hLget]
+    by_cases hsl : slurped k = true
+    · rw [if_pos hsl, h1 k (slurped_not_missing k hsl), get_union]
+      cases hg : SMap.get (rowsFor W st' b) k with
+      | none => simp [cm k, hsl]
+      | some v =>
+        by_cases hsk : skipKey (SMap.has c.m (kMeta b)) b k = false
+        · simp [hsk]
+        · have hsk' : skipKey (SMap.has c.m (kMeta b)) b k = true := by
+            cases h : skipKey (SMap.has c.m (kMeta b)) b k <;> simp_all
+          unfold skipKey at hsk'
+          simp only [hsl, Bool.not_true, Bool.false_or, Bool.and_eq_true, decide_eq_true_eq] at hsk'
+          obtain ⟨hd, hk⟩ := hsk'
+          subst hk
+          have hv : v = metaVal W b := by
+            cases st' with
+            | absent => exact absurd rfl hst'
+            | half => simpa [rowsFor, partialRows, SMap.get] using hg.symm
+            | full => simpa [rowsFor, fullRows, fullRowsAt, SMap.get] using hg.symm
+          have : SMap.get c.m (kMeta b) = some (metaVal W b) := by
+            rw [cm, if_pos hsl, meta_of_R2 W rows hr b, if_neg (hdupst.mp hd)]
+          simp [skipKey, hd, this, hv]
+    · have hsl' : slurped k = false := by cases h : slurped k <;> simp_all
+      simp [skipKey, hsl', cm k]
+  · intro d
+    obtain ⟨t, dl, date⟩ := d
+    rw [u3, f3, cd, mem_delsOfRows, mem_delsOfRows, delsOfMM, mem_delsOfRows,
+      h1 _ (by rfl : isMissingKey (kDeleted t date dl) = false), get_union]
+    cases SMap.get (rowsFor W st' b) (kDeleted t date dl) <;> simp
+
 end Pk.Index
